@@ -19,8 +19,9 @@ ALL_LOAD = ['load', 'load_all', 'compose', 'compose_all', 'parse', 'scan']
 ALL_GEN = ['load_all', 'compose_all', 'parse', 'scan']
 ALL_DUMP = ['dump', 'dump_all', 'serialize', 'serialize_all', 'emit']
 DOCS_ALL = ['plain', 'scanerr', 'parseerr', 'comperr', 'ctorerr', 'yamldir', 'tagdir', 'usetag', 'stdtag', 'anchors',
-            'usealias', 'rec', 'pyobj', 'deepfail', 'ucall', 'ugen', 'umulti']
-VALS_ALL = ['plainv', 'shared', 'shared2', 'recv', 'reprerr', 'tagged', 'usesve', 'verv', 'urepr', 'umrepr', 'uni', 'uniau', 'scalarv']
+            'usealias', 'rec', 'pyobj', 'deepfail', 'ucall', 'ugen', 'umulti', 'paths']
+VALS_ALL = ['plainv', 'shared', 'shared2', 'recv', 'reprerr', 'tagged', 'usesve', 'verv', 'urepr', 'umrepr', 'uni', 'uniau', 'scalarv',
+            'pathsv']
 DOCS12 = ['plain', 'scanerr', 'parseerr', 'comperr', 'ctorerr', 'yamldir', 'tagdir', 'usetag', 'stdtag', 'anchors',
           'usealias', 'rec']
 BASE = dict(LoadOps=[], GenOps=[], DumpOps=[], Classes=['safe'], Backends=['py'], IOs=['mem'], Impls=[True], Docs=[],
@@ -58,10 +59,12 @@ HIST_CONFIGS = [
     ('dump2t', cfg(DumpOps=['dump', 'serialize', 'emit'], Classes=['user', 'unsafe'], Backends=['py', 'c'], Vals=V6, MaxHist=2), 't'),
     ('dumpio', cfg(DumpOps=ALL_DUMP, Classes=['safe'], IOs=['mem', 'file'], Backends=['py', 'c'],
                    Vals=['plainv', 'shared', 'verv'], MaxHist=2), 't'),
-    ('mixed', cfg(LoadOps=['load'], GenOps=['load_all'], DumpOps=['dump'], Classes=['user'], Docs=['tagdir', 'usetag', 'anchors'],
-                  Vals=['tagged', 'usesve', 'shared2'], MaxHist=3), 'qt'),
+    ('mixed', cfg(LoadOps=['load'], GenOps=['load_all'], DumpOps=['dump'], Classes=['user'], Docs=['paths', 'usetag', 'comperr'],
+                  Vals=['pathsv', 'usesve', 'reprerr'], MaxHist=3), 'qt'),
     ('mixedc', cfg(LoadOps=['load'], GenOps=['load_all'], DumpOps=['dump'], Classes=['user'], Backends=['c'],
-                   Docs=['tagdir', 'usetag', 'anchors'], Vals=['tagged', 'usesve', 'shared2'], MaxHist=3), 'qt'),
+                   Docs=['paths', 'usetag', 'comperr'], Vals=['pathsv', 'usesve', 'reprerr'], MaxHist=3), 'qt'),
+    ('usersafe', cfg(LoadOps=['load'], DumpOps=['dump'], Classes=['user', 'safe'], Backends=['py', 'c'], Docs=['paths', 'usetag', 'scanerr'],
+                     Vals=['pathsv', 'reprerr'], MaxHist=2), 'qt'),
     ('faults', cfg(LoadOps=['load'], GenOps=['load_all'], DumpOps=['dump'], Classes=['user'], Backends=['py', 'c'],
                    Docs=['ucall', 'ugen', 'umulti'], Vals=['urepr', 'umrepr'], MaxHist=2, Faults=True), 'qt'),
     ('load4', cfg(LoadOps=['load', 'load_all'], GenOps=['load_all'], Docs=['tagdir', 'usetag', 'anchors'], MaxHist=4), 't'),
@@ -84,12 +87,12 @@ STREAM_CONFIGS = [
                        MaxStream=3), 't'),
 ]
 # deliberately wrong variants of L and the H formula each must violate
-MUTATIONS = [('keep_serialized', 'H_Documents'), ('keep_anchors', 'H_Documents'), ('th_in_place', 'H_Globals'), ('th_update_only', 'H_Documents'),
+MUTATIONS = [('shared_resolver_stack', 'H_Globals'), ('keep_serialized', 'H_Documents'), ('keep_anchors', 'H_Documents'), ('th_in_place', 'H_Globals'), ('th_update_only', 'H_Documents'),
              ('keep_anchor_id', 'H_Documents'), ('keep_tag_prefixes', 'H_Documents'),
              ('dispose_raises', 'H_FaultTransparency'), ('wrap_write_error', 'H_FaultTransparency')]
 SENS = cfg(LoadOps=['load_all'], DumpOps=['dump_all', 'serialize_all', 'emit'], Classes=['user'], IOs=['file'],
            Docs=['plain', 'tagdir', 'usetag', 'anchors', 'usealias'], Vals=['plainv', 'shared2', 'tagged', 'usesve'], MaxHist=1,
-           MaxStream=2, Faults=True, KeepHist=False)
+           MaxStream=2, Faults=True, KeepHist=False)     # Classes user: path resolvers registered
 MICRO_ACTIONS = ['CreateLoader', 'CreateDumper', 'Read', 'ProcessDirectives', 'ImplicitDocumentStart', 'DocumentBoundary',
                  'ParseComposeNode', 'ComposeDocumentReset', 'ConstructObject', 'DrainStateGenerators',
                  'ConstructDocumentReset', 'SerializerOpen', 'SerializerClose', 'RepresentData', 'RepresentReset',
